@@ -3,6 +3,7 @@ package main
 import (
 	"encoding/json"
 	"fmt"
+	"hash/fnv"
 	"math/rand"
 	"os"
 	"path/filepath"
@@ -12,6 +13,8 @@ import (
 
 	"github.com/lindb/lindb/models"
 	protoCommonV1 "github.com/lindb/lindb/proto/gen/v1/common"
+	"github.com/lindb/lindb/series"
+	"github.com/lindb/lindb/series/field"
 	"github.com/lindb/lindb/verif/internal/core"
 	"github.com/lindb/lindb/verif/internal/node"
 )
@@ -263,9 +266,12 @@ type outcome struct {
 	Diffs     []string `json:"diffs,omitempty"`
 	Got       string   `json:"got,omitempty"`
 	LeafErrs  []string `json:"leaf_errors,omitempty"`
-	recreate  bool
-	res       *node.QueryResult
-	specs     map[string][]string // leaf -> field names of the aggregator specs it sent
+	// LeafDigests: per leaf response (sender>receiver) an order independent digest of the groups, fields and bytes it
+	// carried: equal digests under two delivery orders with different results put the difference at the merging node
+	LeafDigests map[string]string `json:"leaf_digests,omitempty"`
+	recreate    bool
+	res         *node.QueryResult
+	specs       map[string][]string // leaf -> field names of the aggregator specs it sent
 }
 
 func (r *runner) freeCell(q *query) func(g, item string, ts int64) bool {
@@ -310,6 +316,12 @@ func (r *runner) runOne(cl *cluster, l layoutSpec, q *query, perm []int, strict 
 	r.res.count("runs.plan."+shape, 1)
 	msgs := sched.messages()
 	leafErr := map[string]string{}
+	out.LeafDigests = map[string]string{}
+	for _, m := range msgs {
+		if m.Kind == node.Response && cl.leaf[m.From] && m.Resp != nil {
+			out.LeafDigests[fmt.Sprintf("%s>%s#%d", m.From, m.To, m.Seq)] = payloadDigest(m.Resp)
+		}
+	}
 	out.res = res
 	out.specs = map[string][]string{}
 	for _, m := range msgs {
@@ -333,7 +345,6 @@ func (r *runner) runOne(cl *cluster, l layoutSpec, q *query, perm []int, strict 
 			out.LeafErrs = append(out.LeafErrs, fmt.Sprintf("leaf %d %v: %s", i, l.Leaves[i], e))
 		}
 	}
-	base := r.base[q.ID]
 	lk := l.kind()
 	switch {
 	case res.ParseErr:
@@ -361,6 +372,13 @@ func (r *runner) runOne(cl *cluster, l layoutSpec, q *query, perm []int, strict 
 	if len(leafErr) > 0 && res.Err == nil {
 		r.res.count("runs_where_a_leaf_answered_with_a_tolerated_not_found_error", 1)
 	}
+	return r.judge(out, l, q, res, shape, len(leafErr), len(cl.ids))
+}
+
+// judge compares what a layout answered with the reference of the statement.
+func (r *runner) judge(out *outcome, l layoutSpec, q *query, res *node.QueryResult, shape string, nLeafErr, nLeaves int) *outcome {
+	base := r.base[q.ID]
+	lk := l.kind()
 	out.Err = errString(res.Err)
 	// errors
 	if base.Err != "" || res.Err != nil {
@@ -383,7 +401,7 @@ func (r *runner) runOne(cl *cluster, l layoutSpec, q *query, perm []int, strict 
 				r.res.count("runs_where_reference_and_layout_answer_with_different_not_found_errors", 1)
 			}
 		}
-		if out.Class == "C12/answer-instead-of-error/"+lk && len(leafErr) == len(cl.ids) && got0(res) {
+		if out.Class == "C12/answer-instead-of-error/"+lk && nLeafErr == nLeaves && got0(res) {
 			// every leaf answered not-found, the last such answer must fail the query - and the root returned an empty
 			// result without error: the error set by the response handler was overwritten
 			out.Class = "C12/error-lost/every-leaf-answered-not-found-but-the-root-answers-empty"
@@ -597,6 +615,52 @@ func (r *runner) refine(l layoutSpec, q *query, out *outcome, res *node.QueryRes
 	}
 }
 
+// payloadDigest is an order independent digest of the VALUES a leaf response carries: every (group, field, aggregate,
+// segment start, slot, value) except the cells of first/last aggregates (where several series of a group meet, the leaf's
+// own merge order decides and the language leaves that open).
+func payloadDigest(resp *protoCommonV1.TaskResponse) string {
+	if resp.ErrMsg != "" {
+		return "error: " + resp.ErrMsg
+	}
+	tsl := &protoCommonV1.TimeSeriesList{}
+	if err := tsl.Unmarshal(resp.Payload); err != nil {
+		return "undecodable"
+	}
+	var x uint64
+	cells := 0
+	for _, ts := range tsl.TimeSeriesList {
+		fields := map[field.Name][]byte{}
+		for f, data := range ts.Fields {
+			fields[field.Name(f)] = data
+		}
+		git := series.NewGroupedIterator(ts.Tags, fields)
+		for git.HasNext() {
+			it := git.Next()
+			for it.HasNext() {
+				start, fit := it.Next()
+				if fit == nil {
+					continue
+				}
+				for fit.HasNext() {
+					pit := fit.Next()
+					agg := pit.AggType()
+					for pit.HasNext() {
+						slot, v := pit.Next()
+						if agg == field.Last || agg == field.First {
+							continue
+						}
+						h := fnv.New64a()
+						fmt.Fprintf(h, "%s|%s|%d|%d|%d|%v", ts.Tags, it.FieldName(), agg, start, slot, v)
+						x ^= h.Sum64()
+						cells++
+					}
+				}
+			}
+		}
+	}
+	return fmt.Sprintf("%d groups %d cells %016x", len(tsl.TimeSeriesList), cells, x)
+}
+
 func got0(res *node.QueryResult) bool {
 	m, _ := toMap(res.ResultSet, nil)
 	return m.empty()
@@ -642,8 +706,17 @@ func (r *runner) classifyIsolated(l layoutSpec, q *query, o *outcome, holdings [
 		return
 	}
 	class := "C12/isolated-metadata/leaf-with-matching-data-answers-not-found/" + kind
-	if res == nil || res.Err != nil || q.Limited {
-		o.Class = class + "/unchecked"
+	if res == nil || res.Err != nil {
+		if len(dropped) == len(l.Leaves) {
+			// every leaf misses some name of the statement: the tolerated not-found answers add up to an error
+			o.Class = class + "/every-leaf-answers-not-found"
+		} else {
+			o.Class = class + "/error"
+		}
+		return
+	}
+	if q.Limited {
+		o.Class = class + "/limited-statement-not-checked-further"
 		return
 	}
 	// the model without the shards of the leaves that answered with an error
@@ -689,7 +762,7 @@ func (r *runner) classifyIsolated(l layoutSpec, q *query, o *outcome, holdings [
 	if len(ds) == 0 {
 		o.Class = class + "/result-is-the-answer-without-that-leaf"
 	} else {
-		o.Class = class + "/and-more"
+		o.Class = "C12/isolated-metadata/unexplained/a-leaf-answered-" + kind + "-but-dropping-it-does-not-explain-the-result"
 		o.Problem += fmt.Sprintf("; not explained by dropping the leaves with errors alone: %s", ds[0])
 	}
 }
@@ -861,6 +934,25 @@ func (r *runner) runLayout(l layoutSpec, iso *isoPlacement) {
 				cl.setDelays(rand.New(rand.NewSource(r.seed*131 + int64(r.ds.Index)*17 + int64(q.ID)*7 + int64(pi))))
 			}
 			o := r.runOne(cl, l, q, perm, strict)
+			if strings.HasPrefix(o.Class, "C12/error-lost/") {
+				// the known way to lose the error is a race between the last response and the root's own request
+				// pipeline: it does not repeat. An error that is lost on every attempt is something else.
+				repeated := true
+				for attempt := 0; attempt < 2 && repeated; attempt++ {
+					again := r.runOne(cl, l, q, perm, strict)
+					r.res.count("runs", 1)
+					if again.recreate {
+						cl.close()
+						cl = r.newCluster(l, iso)
+					}
+					repeated = strings.HasPrefix(again.Class, "C12/error-lost/")
+				}
+				if repeated {
+					o.Class = "C12/answer-instead-of-error/" + l.kind() + "/on-every-attempt"
+				} else {
+					r.res.count("lost_errors_that_did_not_repeat_on_retry", 1)
+				}
+			}
 			if !exhaustive && l.Intermediates <= 1 {
 				cl.clearDelays()
 			}
@@ -901,6 +993,39 @@ func (r *runner) runLayout(l layoutSpec, iso *isoPlacement) {
 				}
 			}
 		}
+		// what a leaf answers is a function of its data and the statement: it must not change from run to run. A run whose
+		// result differs AND whose leaf answers differ from those of a run that equals the reference is a leaf-side matter.
+		strip := func(o *outcome) map[string]string {
+			m := map[string]string{}
+			for k, v := range o.LeafDigests {
+				m[k[:strings.Index(k, "#")]] = v
+			}
+			return m
+		}
+		var good map[string]string
+		for _, o := range outs {
+			if o.Class == "" && !o.TimedOut && !o.Stuck {
+				good = strip(o)
+				break
+			}
+		}
+		if good != nil && l.Intermediates <= 1 {
+			for _, o := range outs {
+				if o.TimedOut || o.Stuck {
+					continue
+				}
+				for k, v := range strip(o) {
+					if gv, ok := good[k]; ok && gv != v {
+						r.res.count("leaf_answers_that_differ_between_two_runs_of_one_statement", 1)
+						if strings.HasPrefix(o.Class, "C12/result-differs/") {
+							o.Class = "C12/leaf-answer-differs-between-runs/" + l.kind()
+							o.Problem = fmt.Sprintf("leaf answer %s carried %q in this run and %q in a run that equals the reference; %s", k, v, gv, o.Problem)
+						}
+						break
+					}
+				}
+			}
+		}
 		if bad == 0 {
 			continue
 		}
@@ -920,6 +1045,19 @@ func (r *runner) runLayout(l layoutSpec, iso *isoPlacement) {
 			msg := fmt.Sprintf("data set %d, %d shards, %s; %s\n%s (%d of %d delivery orders)", r.ds.Index, r.shards, l, q.SQLText, os[0].Problem, len(os), len(outs))
 			w := r.witness(l, q, os)
 			w["leaf_holdings"] = holdings
+			for _, o := range outs {
+				if o.Class == "" && !o.TimedOut {
+					// for comparison: what the leaves sent in a run that equals the reference (digests without the
+					// message numbers: sender>receiver -> digest)
+					good := map[string]string{}
+					for k, v := range o.LeafDigests {
+						good[k[:strings.Index(k, "#")]] = v
+					}
+					w["leaf_digests_of_a_run_equal_to_the_reference"] = good
+					w["delivery_order_of_that_run"] = o.Delivered
+					break
+				}
+			}
 			for range os {
 				r.res.violation(final, msg, w)
 			}
@@ -955,6 +1093,18 @@ func (r *runner) runBaseline() map[int]*baseEntry {
 			cl = r.newCluster(l, nil)
 			continue
 		}
+		if (q.ErrWanted != "" || q.exp.ErrorExpected != "") && full.Err == nil && got0(full) {
+			// the known race that loses the error of an all-not-found answer does not repeat; retry before judging
+			for attempt := 0; attempt < 2 && full.Err == nil; attempt++ {
+				full = cl.c.Query(q.FullSQL)
+				r.res.Evals++
+			}
+			if full.Err != nil {
+				r.res.count("lost_errors_that_did_not_repeat_on_retry", 1)
+				r.res.violation("C12/error-lost/every-leaf-answered-not-found-but-the-root-answers-empty",
+					fmt.Sprintf("data set %d: %s on one shard, one leaf answered with an empty result once and with %q when repeated", r.ds.Index, q.FullSQL, full.Err), nil)
+			}
+		}
 		be.FullErr = errString(full.Err)
 		be.Full, be.Header = toMap(full.ResultSet, q.Q.GroupBy)
 		// reference vs naive model
@@ -973,6 +1123,19 @@ func (r *runner) runBaseline() map[int]*baseEntry {
 			be.Skip = "reference differs from the model"
 		default:
 			diffs := node.Compare(q.exp, full.ResultSet, q.Q.GroupBy, node.CompareOptions{})
+			if len(diffs) > 0 {
+				// a difference that does not repeat is the leaf's business (see C12/leaf-answer-differs-between-runs)
+				again := cl.c.Query(q.FullSQL)
+				r.res.Evals++
+				if again.Err == nil && !again.Stuck && !again.TimedOut {
+					if d2 := node.Compare(q.exp, again.ResultSet, q.Q.GroupBy, node.CompareOptions{}); len(d2) == 0 {
+						r.res.violation("C12/leaf-answer-differs-between-runs/reference",
+							fmt.Sprintf("data set %d: %s on one shard, one leaf differed from the naive model once (%s) and equals it when repeated", r.ds.Index, q.FullSQL, diffs[0]), nil)
+						full, diffs = again, nil
+						be.Full, be.Header = toMap(full.ResultSet, q.Q.GroupBy)
+					}
+				}
+			}
 			if len(diffs) > 0 {
 				var ds []string
 				for i, d := range diffs {
@@ -1080,12 +1243,38 @@ func runCase(idx, shards int, dir, tier string, seed, base int64, baseFile strin
 	}
 	res.count("data_sets.flush_mode."+ds.FlushMode, 1)
 	if extra := os.Getenv("C12_EXTRA_SQL"); extra != "" {
-		// debugging: run statements on the all-on-one-leaf layout and print the results
-		cl := r.newCluster(layoutSpec{Name: "debug", Leaves: [][]models.ShardID{shardIDs(shards)}}, nil)
+		// debugging: run statements on a layout (default all shards on one leaf; C12_EXTRA_LAYOUT="0,1|2,3", C12_EXTRA_INTER=1,
+		// C12_EXTRA_PERM="1,0") and print the leaf responses and the results
+		dl := layoutSpec{Name: "debug", Leaves: [][]models.ShardID{shardIDs(shards)}}
+		if v := os.Getenv("C12_EXTRA_LAYOUT"); v != "" {
+			dl.Leaves = nil
+			for _, part := range strings.Split(v, "|") {
+				var ids []models.ShardID
+				for _, x := range strings.Split(part, ",") {
+					var id int
+					fmt.Sscan(x, &id)
+					ids = append(ids, models.ShardID(id))
+				}
+				dl.Leaves = append(dl.Leaves, ids)
+			}
+		}
+		fmt.Sscan(os.Getenv("C12_EXTRA_INTER"), &dl.Intermediates)
+		cl := r.newCluster(dl, nil)
+		var perm []int
+		for _, x := range strings.Split(os.Getenv("C12_EXTRA_PERM"), ",") {
+			var v int
+			if _, err := fmt.Sscan(x, &v); err == nil {
+				perm = append(perm, v)
+			}
+		}
 		cl.c.OnLeafResult = func(leaf string, resp *protoCommonV1.TaskResponse) {
 			tsl := &protoCommonV1.TimeSeriesList{}
 			_ = tsl.Unmarshal(resp.Payload)
-			fmt.Printf("  LEAF %s err=%q specs=%d\n", leaf, resp.ErrMsg, len(tsl.FieldAggSpecs))
+			fmt.Printf("  LEAF %s err=%q specs=%d:", leaf, resp.ErrMsg, len(tsl.FieldAggSpecs))
+			for _, sp := range tsl.FieldAggSpecs {
+				fmt.Printf(" %s/%d%v", sp.FieldName, sp.FieldType, sp.FuncTypeList)
+			}
+			fmt.Println()
 			for _, ts := range tsl.TimeSeriesList {
 				var fs []string
 				for f, d := range ts.Fields {
@@ -1096,6 +1285,9 @@ func runCase(idx, shards int, dir, tier string, seed, base int64, baseFile strin
 			}
 		}
 		for _, sql := range strings.Split(extra, ";") {
+			if perm != nil {
+				cl.c.SetScheduler(&permScheduler{Leaf: cl.leaf, Perm: perm, Strict: true})
+			}
 			qr := cl.c.Query(sql)
 			gb := []string{}
 			if qr.Statement != nil {
@@ -1147,6 +1339,10 @@ func runCase(idx, shards int, dir, tier string, seed, base int64, baseFile strin
 			}
 			r.runLayout(l, nil)
 		}
+	}
+	if shards == 2 && only == "" {
+		r.runFastTransport(layoutSpec{Name: "fast-transport-one-leaf", Leaves: [][]models.ShardID{{0, 1}}})
+		r.runFastTransport(layoutSpec{Name: "fast-transport-two-leaves", Leaves: [][]models.ShardID{{0}, {1}}})
 	}
 	// isolated metadata: every leaf is a database of its own
 	var isoParts []layoutSpec
